@@ -234,8 +234,8 @@ static void build_all() {
 		pgp_ctx_setup(prvs, pubs, g_PW.seskey, g_PW.data);
 		count("pgp_local_prvkeys", (long long)g_pgp.prv.size()); count("pgp_local_ring", (long long)(g_pgp.ring ? g_pgp.ring->Size() : 0));
 		struct { const char *n; RunFn f; Kind k; std::vector<std::string> kinds; } es[] = {
-			{"pgp/ArmorDecode", pgp_armor_decode, K_ARMOR, {"pub", "prv", "sig", "msg", "clear"}},
-			{"pgp/PacketDecode", pgp_packet_decode, K_PGP, {"pub", "prv", "sig", "msg"}},
+			{"pgp/ArmorDecode", pgp_armor_decode, K_ARMOR, {"pub", "prv", "prvpkt", "sig", "msg", "clear"}},
+			{"pgp/PacketDecode", pgp_packet_decode, K_PGP, {"pub", "prv", "prvpkt", "sig", "msg"}},
 			{"pgp/PublicKeyBlockParse", pgp_pubkey_block, K_PGP, {"pub"}}, {"pgp/PublicKeyBlockParse-armored", pgp_pubkey_block_armored, K_ARMOR, {"pub"}},
 			{"pgp/PrivateKeyBlockParse", pgp_prvkey_block, K_PGP, {"prv"}}, {"pgp/PrivateKeyBlockParse-armored", pgp_prvkey_block_armored, K_ARMOR, {"prv"}},
 			{"pgp/SignatureParse", pgp_signature, K_PGP, {"sig"}}, {"pgp/SignatureParse-armored", pgp_signature_armored, K_ARMOR, {"sig"}},
@@ -304,11 +304,13 @@ int main(int argc, char **argv) {
 			EntryT &e = g_entries[ei];
 			if (e.kind == K_INTERACTIVE) {
 				// identity + (prover line, line-mutation class)
-				size_t reps = quick ? 1 : 6;
+				// quick: a seeded sample of (line, class) pairs per entry, every class and first/last line included
+				size_t reps = quick ? 1 : 6; size_t pairs = e.plines * L_NCLASS, want = quick ? (size_t)(48 * scale) : pairs;
 				for (size_t line = 0; line <= e.plines; line++) for (int cls = 0; cls < (line == e.plines ? 1 : L_NCLASS); cls++) for (size_t rep = 0; rep < (line == e.plines ? 1 : reps); rep++) {
+					bool ident = line == e.plines;
+					if (!ident && pairs > want) { size_t idx = line * L_NCLASS + cls; bool keep = (line == 0 || line + 1 == e.plines) ? ((cls + line) % 2 == 0) : (Rng(ctx.seed, fnv(e.name), idx).below(pairs) < want); if (!keep) continue; }
 					long kc = k++; if (pass == 0) { total++; continue; }
 					if (stride > 1 && kc % stride) continue;
-					bool ident = line == e.plines;
 					J d; d.kv("e", e.name).kv("line", (long long)line).kv("c", ident ? "id" : lclass_name[cls]).kv("rep", (long long)rep);
 					if (!case_begin(kc, d.str())) continue;
 					g_cur_entry = e.name; g_cur_input = d.str(); g_dumped = false;
